@@ -46,6 +46,7 @@ def integers_unit(kf):
     u = Unit('c07_integers', ['C07'], 'integer scalars: parse accepts exactly the type\'s range; to_value/parse round-trip')
     u.kf = kf
     value_types(u)
+    u.prelude('int_specs')
     u.spec(SPEC, 'integer scalar domain')
     for T in SIGNED + UNSIGNED:
         lo, hi = f'{T}::MIN as int', f'{T}::MAX as int'
@@ -75,3 +76,4 @@ fn {T}_roundtrip(x: {T}) {{
 
 
 UNITS = {'c07_integers': (['C07'], integers_unit)}
+SEARCH = {'c07_integers': ['c07_int']}
